@@ -5,6 +5,7 @@ import (
 	"encoding/base64"
 	"fmt"
 	"sort"
+	"strings"
 
 	"github.com/RoaringBitmap/roaring/v2"
 
@@ -146,6 +147,9 @@ func (w *World) decode(dst *roaring.Bitmap, data []byte, e int, seed uint64, pro
 			}
 			txt = string(b)
 			w.St.Faults["base64-text-damaged"]++
+		} else if seed>>15&3 == 0 && len(txt) > 0 {
+			txt = wrapBase64(txt, seed>>17)
+			w.probe("base64-text-line-wrapped")
 		}
 		p, err = dst.FromBase64(txt)
 	case 5:
@@ -159,6 +163,22 @@ func (w *World) decode(dst *roaring.Bitmap, data []byte, e int, seed uint64, pro
 		p = -1
 	}
 	return
+}
+
+// wrapBase64 lays Base64 text out the way mail, PEM or the base64 tool do: wrapped lines.
+func wrapBase64(txt string, sel uint64) string {
+	width := []int{76, 64, 4, 77}[sel&3]
+	nl := []string{"\n", "\r\n"}[sel>>2&1]
+	var sb strings.Builder
+	for i := 0; i < len(txt); i += width {
+		e := i + width
+		if e > len(txt) {
+			e = len(txt)
+		}
+		sb.WriteString(txt[i:e])
+		sb.WriteString(nl)
+	}
+	return sb.String()
 }
 
 // scribble overwrites a transient buffer handed to a copying decoder (ReadFrom's stream,
@@ -356,7 +376,11 @@ func init() {
 					case 3:
 						derr = dst.UnmarshalBinary(prefix)
 					default:
-						_, derr = dst.FromBase64(base64.StdEncoding.EncodeToString(prefix))
+						txt := base64.StdEncoding.EncodeToString(prefix)
+						if (st.A[1]>>10)&1 == 1 {
+							txt = wrapBase64(txt, st.A[1]>>11)
+						}
+						_, derr = dst.FromBase64(txt)
 					}
 				})
 				w.St.Faults["truncated-stream"]++
@@ -432,11 +456,17 @@ func init() {
 			if mode == 1 && len(data) > 0 { // truncated: expect ReadFrom's error back
 				in = data[:int(st.A[0]%uint64(len(data)))]
 			}
+			// both argument forms: the whole stream, or the cookie already consumed by the caller
+			var hdr []byte
+			if st.A[0]>>21&1 == 1 && len(in) >= 4 {
+				hdr, in = in[:4], in[4:]
+				w.probe("mustreadfrom-with-cookie-header")
+			}
 			ref := roaring.New()
 			var rn int64
 			var rerr error
 			if w.try("C10", func() {
-				rn, rerr = ref.ReadFrom(&simio.ChunkedReader{Data: in, Sizes: chunkSizes(st.A[0]), ErrAt: -1})
+				rn, rerr = ref.ReadFrom(&simio.ChunkedReader{Data: in, Sizes: chunkSizes(st.A[0]), ErrAt: -1}, hdr...)
 			}) {
 				return
 			}
@@ -446,7 +476,7 @@ func init() {
 			var pv interface{}
 			func() {
 				defer func() { pv = recover() }()
-				mn, merr = dst.MustReadFrom(&simio.ChunkedReader{Data: in, Sizes: chunkSizes(st.A[0]), ErrAt: -1})
+				mn, merr = dst.MustReadFrom(&simio.ChunkedReader{Data: in, Sizes: chunkSizes(st.A[0]), ErrAt: -1}, hdr...)
 			}()
 			if pv != nil {
 				if rerr == nil {
@@ -458,7 +488,11 @@ func init() {
 				return
 			}
 			if mn != rn || (merr == nil) != (rerr == nil) {
-				w.fail("C10", "mustread", "MustReadFrom does not return ReadFrom's count and error", fmt.Sprintf("ReadFrom -> (%d, %v); MustReadFrom -> (%d, %v) on the same %d bytes", rn, rerr, mn, merr, len(in)))
+				tag := "C10"
+				if rerr == nil && mode != 1 {
+					tag = "C10+C05" // a complete stream the library wrote, rejected by one entry point
+				}
+				w.fail(tag, "mustread", "MustReadFrom does not return ReadFrom's count and error", fmt.Sprintf("ReadFrom -> (%d, %v); MustReadFrom -> (%d, %v) on the same %d bytes", rn, rerr, mn, merr, len(in)))
 				return
 			}
 			if rerr == nil {
@@ -562,6 +596,38 @@ func init() {
 		}})
 
 	// ------------------------------------------------------------ dense conversion (C16)
+	// DenseSize alone is cheap for any bitmap, also one whose dense form would be 512 MiB
+	reg(&opDef{name: "densesize", tag: "C16",
+		gen: func(w *World, r *Rng) (Step, bool) {
+			// prefer the slot with the largest maximum
+			best, bm := w.slot(r), uint32(0)
+			if r.Bool() {
+				for i, o := range w.B {
+					if mx, ok := o.M.Max(); ok && mx >= bm {
+						best, bm = i, mx
+					}
+				}
+			}
+			return Step{S: []int{best}}, true
+		},
+		valid: func(w *World, st *Step) bool { return slotsOK(w, st, 1, 0) },
+		exec: func(w *World, st *Step) {
+			o := w.B[st.S[0]]
+			var want uint64
+			if mx, ok := o.M.Max(); ok {
+				want = (uint64(mx) + 64) / 64
+				if mx == 0xFFFFFFFF {
+					w.probe("densesize-with-maximum-2^32-1")
+				}
+			}
+			var got uint64
+			if w.try("C16", func() { got = o.BM.DenseSize() }) {
+				return
+			}
+			if got != want {
+				w.fail("C16", "dense", "DenseSize is not the number of words of the plain bit vector", fmt.Sprintf("DenseSize()=%d, the bit vector up to the maximum %d has %d words", got, func() uint32 { m, _ := o.M.Max(); return m }(), want))
+			}
+		}})
 	reg(&opDef{name: "dense", tag: "C16",
 		gen: func(w *World, r *Rng) (Step, bool) {
 			if w.regionsLive() >= maxRegions {
